@@ -260,14 +260,33 @@ def random_tree(rnd, size):
     return root
 
 
+def big_tree(rnd):
+    """hundreds of children under one parent (sizes above 256), and a chain 12 deep"""
+    root = Node("wide")
+    root.add_namespace("p", "urn:p")
+    for i in range(rnd.choice([257, 300])):
+        c = Node(f"c{i % 7}", content=rtext(rnd) if i % 5 == 0 else None)
+        if i % 50 == 0:
+            c.add_attribute("k", rtext(rnd))
+        root.add_child(c)
+    cur = root.children[-1]
+    for i in range(12):      # deeper documents nest beyond what pickle / TLC's JSON reader handle; depth is C04's business
+        nx = Node("deep", content=str(i) if i % 9 == 0 else None)
+        cur.add_child(nx)
+        cur = nx
+    return root
+
+
 def w_random(seeds):
+    import sys
+    sys.setrecursionlimit(10000)          # results with deeply nested documents are pickled back to the parent
     evs = []
     conv = converter()
     for seed in seeds:
         Node.store.clear()
         rnd = random.Random(seed)
         at = Atoms()
-        root = random_tree(rnd, rnd.randint(1, 40))
+        root = big_tree(rnd) if seed % 60 == 59 else random_tree(rnd, rnd.randint(1, 40))
         for e in roundtrip_events(root, at, conv, {"seed": seed}):
             evs.append(e)
     return evs
